@@ -705,6 +705,11 @@ func (e *E3) g1(r *Result, prefix string) {
 					r.table(p, rule, construct, p.instrPos(pn), true, "exhaustive: follows a switch whose cases cover all eight values of the 3-bit major type")
 				} else if reason, ok := reviewedPanics[key]; ok {
 					r.table(p, rule, construct, p.instrPos(pn), true, "reviewed: "+reason+" [tainted condition at "+where+"]")
+				} else if reason, ok := reviewedPanicByMessage(funcPkgPath(fn), msg); ok {
+					// the enclosing function was renamed or the panic moved into a
+					// helper of the same package: the reviewed entry is identified
+					// by its (package, message), which is unique in the table
+					r.table(p, rule, construct, p.instrPos(pn), true, "reviewed (matched by package and message): "+reason+" [tainted condition at "+where+"]")
 				} else if _, isLookup := partialLookups[p.FuncName(fn)]; isLookup {
 					r.table(p, rule, construct, p.instrPos(pn), true, "partial lookup: discharged per call site by rule "+prefix+".partial-lookups")
 				} else {
@@ -1971,4 +1976,37 @@ func nonNegTerm(m *Matcher, v ssa.Value, depth int) bool {
 		}
 	}
 	return false
+}
+
+// reviewedPanicByMessage finds the reviewed entry for a panic message within a
+// package when exactly one entry of that package carries the message.
+func reviewedPanicByMessage(pkgPath, msg string) (string, bool) {
+	if msg == "" || msg == "unreachable" || msg == "unimplemented" {
+		return "", false
+	}
+	short := pkgShort(pkgPath)
+	found, reason := 0, ""
+	for k, v := range reviewedPanics {
+		i := strings.Index(k, "|")
+		if i < 0 || k[i+1:] != msg {
+			continue
+		}
+		fnName := k[:i]
+		j := strings.LastIndex(fnName, ".")
+		pk := fnName
+		if j > 0 {
+			pk = fnName[:j]
+		}
+		// methods: pkg.Type.Method -> strip once more if the package does not match
+		if pk != short {
+			if j2 := strings.LastIndex(pk, "."); j2 > 0 && pk[:j2] == short {
+				pk = pk[:j2]
+			}
+		}
+		if pk == short {
+			found++
+			reason = v
+		}
+	}
+	return reason, found == 1
 }
